@@ -202,6 +202,12 @@ func runC03(c *Ctx) {
 	mon.Parallel(c.Workers, nBases, func(w, bi int) {
 		r := mon.NewRand(uint64(c.Seed)).Sub(uint64(31000 + bi))
 		k := c.Keys.Keys[bi%7]
+		if k.Pub != nil && bi%7 >= 4 && (bi/56)%2 == 1 || (bi%7 >= 4 && (bi/7)%4 == 3) {
+			// RSA keys whose modulus is not a whole number of bytes
+			if odd, err := gen.OddRSA(k.Alg); err == nil {
+				k = odd[(bi/7)%2]
+			}
+		}
 		base := c03makeBase(c, r, bi, k)
 		if base == nil {
 			rec.Event("base-not-built")
